@@ -287,6 +287,21 @@ def programs(tier):
     reg("transpose(x2x2)[a:b,i]", lambda w, E: p_slice(w, p_transpose(w, source(w, E, "x", (2, 2)), (1, 0)), raw_index(E, (F, "i"))), 4)
     reg("concatenate([x2,y2],0)[a:b]", lambda w, E: p_slice(w, p_concat(w, [source(w, E, "x", (2,)), source(w, E, "y", (2,))], 0), raw_index(E, (F,))), 4)
     reg("rechunk(x2->2)[a:b]", lambda w, E: p_slice(w, _rechunk_prog(w, E, (2,), (2,)), raw_index(E, (F,))), 4)
+    # every pushdown target once: slice over X and rechunk over X
+    reg("expand_dims(x2x2,(1,))[a:b,:,i]", lambda w, E: p_slice(w, p_expand(w, source(w, E, "x", (2, 2)), (1,)), raw_index(E, (F, (0, 0, None), "i"))), 4)
+    reg("broadcast_to(x2,(n,)+shape)[i,a:b]", lambda w, E: p_slice(w, p_broadcast(w, source(w, E, "x", (2,)), (E.int("lead", 1),)), raw_index(E, ("i", F))), 4)
+    reg("stack([x2,y2],0)[i,a:b]", lambda w, E: p_slice(w, _stack_aligned(w, E, 0), raw_index(E, ("i", F))), 4)
+    reg("stack([x2,y2],1)[a:b]", lambda w, E: p_slice(w, _stack_aligned(w, E, 1), raw_index(E, (F,))), 4)
+    reg("concatenate([x2x2,y2x1],1)[a:b,c:d]", lambda w, E: p_slice(w, _concat_axis1(w, E), raw_index(E, (F, F))), 8)
+    reg("(x2x2+y2)[i,a:b](broadcast)", lambda w, E: p_slice(w, _add_broadcast(w, E, aligned=True), raw_index(E, ("i", F))), 5)
+    reg("x2x2[a:b][c:d](fused slices)", lambda w, E: p_slice(w, p_slice(w, source(w, E, "x", (2, 2)), raw_index(E, (F,), "k")), raw_index(E, (F,), "m")), 6)
+    reg("rechunk(transpose(x2x2))", lambda w, E: _rechunk_over(w, E, p_transpose(w, source(w, E, "x", (2, 2)), (1, 0)), (2, 1)), 4)
+    reg("rechunk(expand_dims(x2,(0,)))", lambda w, E: _rechunk_over(w, E, p_expand(w, source(w, E, "x", (2,)), (0,)), (1, 3)), 3)
+    reg("rechunk(x2+y2)", lambda w, E: _rechunk_over(w, E, _add_aligned(w, E, (2,)), (3,)), 4)
+    reg("rechunk(concatenate([x2,y2],0))", lambda w, E: _rechunk_over(w, E, p_concat(w, [source(w, E, "x", (2,)), source(w, E, "y", (2,))], 0), (3,)), 6)
+    reg("rechunk(concatenate([x2x2,y2x1],1),axis0)", lambda w, E: _rechunk_over(w, E, _concat_axis1(w, E), (1, None)), 5)
+    reg("rechunk(rechunk(x2->3)->2)", lambda w, E: _rechunk_over(w, E, _rechunk_prog(w, E, (2,), (3,)), (2,), "s"), 4)
+    reg("rechunk(x3[a:b])", lambda w, E: _rechunk_over(w, E, p_slice(w, source(w, E, "x", (3,)), raw_index(E, (F,))), (2,)), 6)
     if not q:
         reg("slice(x3x2)[a:b:2,::-1]", lambda w, E: p_slice(w, source(w, E, "x", (3, 2)), raw_index(E, ((1, 1, 2), (0, 0, -1)))), 6)
         reg("x3+y2(unaligned)", lambda w, E: _add_unaligned(w, E, (3,), (2,)), 6)
@@ -301,6 +316,20 @@ def _rechunk_prog(w, E, blocks, new_blocks):
     for a in range(len(blocks)):
         E.assume(sum(tgt[a]) == sum(p.node.chunks[a]))
     return p_rechunk(w, p, tgt)
+
+
+def _rechunk_over(w, E, p, new_blocks, tag="r"):
+    """rechunk `p` to `new_blocks` blocks per axis (None: keep that axis' chunks) with symbolic sizes"""
+    cur = p.node.chunks
+    tgt = []
+    for a, m in enumerate(new_blocks):
+        if m is None:
+            tgt.append(tuple(cur[a]))
+            continue
+        c = tuple(E.int(f"{tag}{a}_{i}", 1) for i in range(m))
+        E.assume(sum(c) == sum(cur[a]))
+        tgt.append(c)
+    return p_rechunk(w, p, tuple(tgt))
 
 
 def _add_aligned(w, E, blocks):
@@ -319,9 +348,12 @@ def _add_unaligned(w, E, bx, by, policy="coarse", hi=None):
     return p_elemwise(w, operator.add, x, y)
 
 
-def _add_broadcast(w, E):
+def _add_broadcast(w, E, aligned=False):
     x = source(w, E, "x", (2, 2))
     y = source(w, E, "y", (2,), shape=(x.node.shape[1],))
+    if aligned:
+        for i in range(2):
+            E.assume(y.node.chunks[0][i] == x.node.chunks[1][i])
     return p_elemwise(w, operator.add, x, y)
 
 
